@@ -46,6 +46,7 @@ def run(tier):
         chk.clause('C12.est', 'the norm estimate behind RCOND is a magnitude by construction')
         for _p in 'sdcz':
             cond.estimate_nonnegative_rule(chk, 'C12.est', prog, _p, cfgname)
+            cond.alt_vector_rule(chk, 'C12.est', prog, _p, cfgname)
         kernels.paired_cursor_rule(chk, 'C12.cursor', prog, ['sp_%strsv' % q for q in 'sdcz'], cfgname, floor=4)
         chk.clause('C12.lacon', 'reverse-communication state of ?lacon2 written before read on every call history')
         for p in _drv.PRECS:
